@@ -78,7 +78,25 @@ def check(prog, run):
                        "fields) checks the member name with check_valid_name, detects duplicates where the container allows them, "
                        "and checks input/output position with the matching predicate", 6)
     loops = []
-    for mname, m in sv.methods.items():
+    # a member loop may live in a private helper: attribute it to the validator entry it is (only) reachable from
+    ENTRIES = ("validate_fields", "validate_input_fields", "validate_directives", "validate_enum_values")
+    reach = {}
+    for e in ENTRIES:
+        seen_m, todo = set(), [e]
+        while todo:
+            cur = todo.pop()
+            if cur in seen_m or cur not in sv.methods:
+                continue
+            seen_m.add(cur)
+            for x in own_nodes(sv.methods[cur].node):
+                if isinstance(x, ast.Call) and isinstance(x.func, ast.Attribute) and isinstance(x.func.value, ast.Name) and x.func.value.id == "self" \
+                        and x.func.attr in sv.methods and x.func.attr not in ENTRIES:
+                    todo.append(x.func.attr)
+        for mm in seen_m:
+            reach.setdefault(mm, set()).add(e)
+    for real_name, m in sv.methods.items():
+        owners = reach.get(real_name, set())
+        mname = real_name if real_name in ENTRIES else (next(iter(owners)) if len(owners) == 1 else real_name)
         for n in own_nodes(m.node):
             if isinstance(n, ast.For) and isinstance(n.target, ast.Name) and isinstance(n.iter, (ast.Attribute, ast.Call)):
                 it = ast.unparse(n.iter)
